@@ -58,6 +58,9 @@ CHECKS = {
     "C16": ("exploration", "bounded-exhaustive enumeration of species sets; exact rational evaluation of the emitted renormalisation text and exact solve",
             "All species sets {H} + up to 4 of 12 others (ions, isotopologues, multi-element molecules, ice, grains, electrons) x positive abundance vectors x reference ratios: InitRenorm, RenormAbundance and GetElementAbund text is read into exact polynomials, the linear system is solved over Q, and afterwards every element/H-nuclei ratio equals the reference, electrons are untouched and matching ratios give the identity; a literal division by zero or a non-C factor is a violation.",
             "Exact arithmetic replaces the LU solve of SUNDIALS/uBLAS (equal up to rounding). Sets without atomic H are outside the generated Renorm (#ifdef IDX_ELEM_H).", "DESIGN.md §2 C16"),
+    "C17": ("model_checking", "stateless exhaustive exploration of all interleavings of sequential client programs over the shared process-global tables, one fresh process per schedule; differential oracle against the client rendered alone",
+            "Five clients chosen to write different values into the same global tables (KIDA/default lists, UCLCHEM project through RenderCommand with replacement + binding energies, Leeds with custom lists and prefix G, KROME with directives, API-built ice network) each run a short program of atomic API calls (build; render / render twice / edit, where_species, render / CLI render); every interleaving of every pair (thorough: and triple) within the length bound is executed on the real code in a fresh process and every render must hash to the client's reference hash, which itself must agree across interpreter hash seeds and repeated renders.",
+            "Scheduling points are API-call boundaries (single-threaded library). No state merging, so no canonicalisation argument is needed.", "DESIGN.md §2 C17"),
 }
 
 NOT_YET = {
